@@ -48,6 +48,22 @@ CLAIMED = {
              "definitions by the oracle on the implementation.",
              technique="Coq proof (history invariant + observer definitions); differential correspondence; observer recomputation with exact fractions",
              design="5 C10"),
+ 'C13': dict(text="Theorems (all plate sizes, label lists, selectors of the grammar): positions are 1-based and labels/integers interchangeable; "
+             "'A:1', ('A','1'), (i,j) and one-element lists denote the same well; the iteration performed for a slice equals the documented "
+             "comprehension (both ends included, open ends to the edge, every k-th for a positive step); lists keep their order; nothing "
+             "outside the plate is ever selected; off-plate indices/labels and malformed selectors are rejected. Default row labels "
+             "A..Z, AA.. resolve to their own row (bounded: complete enumeration up to 1000 rows). Correspondence by complete enumeration "
+             "of the selector grammar on small plates incl. custom and numeric labels and rows beyond Z.",
+             technique="Coq proof (range = comprehension by induction, case analysis of the selector AST); exhaustive enumerated correspondence",
+             design="5 C13"),
+ 'C16': dict(text="Theorems (all lifecycle states / all call sequences, unbounded): a locked recipe answers every call with RuntimeError and never "
+             "changes; a successful bake locks and closes (and records) the open stage; undeclared operands and duplicate names are rejected "
+             "with the state unchanged; one open stage, unique stage names, 'all' reserved; a stage records exactly the steps added between its "
+             "start and end; in every reachable state bake is refused iff some declared object is unused. The per-method guard table is "
+             "regenerated from the source each run and proved equal to the automaton's. Correspondence: every call of a 30-call alphabet from "
+             "every lifecycle state reachable within the bound.",
+             technique="Coq proof (automaton invariants by induction over call sequences); translator-regenerated guard table; exhaustive state-space correspondence",
+             design="5 C16"),
  'C17': dict(text="Theorems: remove leaves no selected substance (substance or class), keeps every other amount unchanged, keeps name and "
              "capacity, and reduces the volume by exactly the volume of what was removed; on plates/slices it is Container.remove on each "
              "addressed well and the identity elsewhere. The recipe clause (discarded amounts in tracking) is decided under C09.",
